@@ -1,4 +1,6 @@
 import ConduitModel.Generated.ProcNode
+import ConduitModel.Generated.ProcSvc
+import ConduitModel.Model.ProcSvc
 import ConduitModel.Model.ProcNode
 
 /-!
@@ -110,5 +112,22 @@ theorem C13_fact_running_flag_writers :
 /-- the service looks the node up, builds a fresh runnable from the stored instance, then calls `Reconfigure`. -/
 theorem C13_fact_service_gates : ProcNode.serviceReconfigureGates =
     ["s.runningPipelines.Get", "s.processors.Get", "s.processors.MakeRunnableProcessorForReconfigure", "node.Reconfigure"] := by rfl
+
+/-- the service wrapper is `… → node.Reconfigure(ctx, runnable) → return`: the Reconfigure call is the last
+call of `ReconfigureProcessor`, its result is returned directly, and the runnable occurs exactly twice
+(built, handed to the node) — nothing on the API goroutine touches it after the node took it, in
+particular no teardown. This is the parameter of `Model/ProcSvc.lean` under which
+`C13_installed_processor_live` / `C13_every_record_processed_by_live_processor` apply to the tree. -/
+theorem C13_fact_service_wrapper :
+    Conduit.Generated.ProcSvc.svcLastStatement = "return " ++ Conduit.Generated.ProcSvc.svcReconfigureCall ∧
+    Conduit.Generated.ProcSvc.svcReconfigureCall = "node.Reconfigure(ctx, runnableProc)" ∧
+    Conduit.Generated.ProcSvc.svcCallsAfterReconfigure = [] ∧
+    Conduit.Generated.ProcSvc.svcRunnableOccurrences = 2 ∧
+    Conduit.Generated.ProcSvc.svcTearsDownAfterReconfigure = false := by decide
+
+/-- the model configuration the tree instantiates. -/
+def svcCfg : Conduit.Model.ProcSvc.Cfg := ⟨Conduit.Generated.ProcSvc.svcTearsDownAfterReconfigure⟩
+
+theorem C13_fact_service_cfg : svcCfg.tdOnError = false := by decide
 
 end Conduit.Facts.C13
